@@ -155,8 +155,19 @@ CHECKS = {
                 "sequence per enforced schedule. Wall-clock timing is compared only away from thresholds.",
         "technique": "Coq proof over all interleavings of a FIFO merge + enforced-schedule correspondence",
     },
+    "C19": {
+        "text": "Volume-size parsing (regex with its quirks, unit table, int() digit limit) and the exit-status decision logic of "
+                "t/x/l/c/a modelled over the whole outcome enum (Cli.v): every string of the help grammar converts to n*unit "
+                "(unit-less = bytes); exit status 0 iff the operation succeeded, for t and x over every library outcome; create/append "
+                "target and volume handling. Correspondence: exhaustive short strings over a 20-letter alphabet (18k quick, 268k "
+                "thorough), real Cli().run with the library stubbed per outcome (22k); exploration with real `python -m py7zr` "
+                "processes: c/x round trips, l vs library, a, -v sizes, t/x on damaged, encrypted and unsupported archives.",
+        "note": "Trusted: Coq kernel; Cli.v hand model tied by correspondence (translator tie for the two volume-size functions in "
+                "progress); printed text and argparse's own status are outside the model.",
+        "technique": "Coq proof of the CLI decision logic over the outcome enum + exhaustive string correspondence + process exploration",
+    },
 }
 
 _PENDING = "check not built yet in this session (planned, see DESIGN.md section 5); not a statement that proof is inapplicable"
 NOT_APPLICABLE = {p: _PENDING for p in
-                  ["C01", "C04", "C05", "C11", "C19", "C20"]}
+                  ["C01", "C04", "C05", "C11", "C20"]}
